@@ -19,10 +19,16 @@ Output per case: {'trace': 'R:… L:… | end=… pend=…'  (same text as the L
 import hashlib
 import logging
 import random
+import signal
 import struct
 from fractions import Fraction
 
-LAT = 0.25          # latency used by `send`
+LAT = 0.25          # latency used by `send b` for even b
+LAT_ODD = 1.25      # … and for odd b (so bundle times are not monotone in send order)
+
+
+def lat_of(b):
+    return LAT if b % 2 == 0 else LAT_ODD
 MAIN_SEED = 424242  # seed given to the main thread's generator (generator id 0)
 NDRAW = 64
 
@@ -140,7 +146,7 @@ class Prog:
                 elif op == 'log':
                     run.events.append(f'L:{i}:{fr(clock.beats)}:{fr(clock.seconds - run.start)}')
                 elif op == 'send':
-                    run.addr.send_bundle(LAT, ['/c10', float(last), a[1]])
+                    run.addr.send_bundle(lat_of(a[1]), ['/c10', float(last), a[1]])
                     run.events.append(f'B:{i}:{a[1]}:{fr(clock.seconds - run.start)}')
                 elif op == 'spawn':
                     r = run.R[a[1]] or run.create(a[1])
@@ -150,6 +156,10 @@ class Prog:
                         run.tempo[a[1]].tempo = num(a[2])
                     except ValueError:
                         run.events.append(f'X:{i}:{i}')
+                elif op == 'etempo':
+                    run.tempo[a[1]].etempo(num(a[2]))
+                elif op == 'raise':
+                    raise ValueError('c05 body fails')
                 elif op in ('pause', 'stop'):
                     r = run.R[a[1]]
                     if r is not None:
@@ -189,7 +199,7 @@ class Prog:
 
     def start_root(self):
         self.main._m_rgen.seed(MAIN_SEED)
-        self.add_stream(0, MAIN_SEED)
+        self.add_stream('M', MAIN_SEED)
         r0 = self.create(0)
         r0.play(self.clock(self.case['root']), 0)
 
@@ -227,7 +237,7 @@ def nrt_case(case):
     if score is not None:
         for b in score.list:
             if len(b) == 2 and b[1][0] == '/c10':
-                bundles.append([fr(b[0] - LAT), b[1][2]])
+                bundles.append([fr(b[0] - lat_of(b[1][2])), b[1][2]])
     times = [fr(t) for _, t in p.moves]
     raw = hashlib.sha1(bytes(score.raw)).hexdigest() if score is not None else None
     return {'raw_sha1': raw, 'trace': ' '.join(p.events) + f' | end={fr(end)} pend={pend}', 'bundles': bundles,
@@ -255,8 +265,22 @@ def boot_rt():
     return _env
 
 
+RT_CASE_TIMEOUT = 25      # wall-clock seconds for one program in virtual time (normally < 0.1 s)
+
+
+class Livelock(Exception):
+    pass
+
+
+def _alarm(signum, frame):
+    raise Livelock()
+
+
 def rt_case(case):
     env = boot_rt()
+    if env.get('broken'):
+        return {'skipped': True, 'trace': ' | end=0 pend=0', 'moves': [], 'bundles': [], 'start': '0',
+                'error': None, 'phys': []}
     vt, main, clk = env['vt'], env['main'], env['clk']
     start = (int(vt.now) // 64 + 1) * 64.0
     vt.advance_to(start)
@@ -279,10 +303,12 @@ def rt_case(case):
         cnt[0] += 1
         return vals[cnt[0] % len(vals)]
 
-    p.start_root()
     err = None
     maxlate = max([0.0] + vals) if lt['mode'] != 'zero' else 0.0
+    signal.signal(signal.SIGALRM, _alarm)
+    signal.setitimer(signal.ITIMER_REAL, RT_CASE_TIMEOUT)
     try:
+        p.start_root()
         # own drain loop (vt.drain does not progress with late > 0)
         idle, limit, guard = False, start + 8192.0, 0
         while True:
@@ -297,8 +323,18 @@ def rt_case(case):
             vt.run_until(max(d, vt.now) + maxlate, late)
         if not idle:
             err = 'not idle at the horizon'
+    except Livelock:
+        # a clock thread spins without virtual time advancing; the process cannot be reused
+        env['broken'] = True
+        signal.setitimer(signal.ITIMER_REAL, 0)
+        return {'trace': ' '.join(p.events) + ' | end=0 pend=0', 'moves': [], 'bundles': [],
+                'start': fr(start), 'phys': [],
+                'error': f'livelock: the clock threads did not settle within {RT_CASE_TIMEOUT} s of wall-clock '
+                         f'time at virtual time {fr(vt.now - start)} s'}
     except Exception as e:
         err = f'{type(e).__name__}: {e}'
+    finally:
+        signal.setitimer(signal.ITIMER_REAL, 0)
     dead = [r.label for r in [vt.thread('SystemClock')] if r.done]
     pend = len(list(clk.SystemClock._task_queue)) + sum(len(list(t._task_queue)) for t in p.tempo)
     end = main.main_tt._m_seconds
@@ -317,7 +353,7 @@ def rt_case(case):
             i = d.find(b'/c10')
             if i >= 0:
                 ident = struct.unpack('>i', d[-4:])[0]
-                bundles.append([fr(Fraction(tt - off, 2 ** 32) - Fraction(LAT) - Fraction(start)), ident])
+                bundles.append([fr(Fraction(tt - off, 2 ** 32) - Fraction(lat_of(ident)) - Fraction(start)), ident])
     # tidy up for the next case
     for t in p.tempo:
         t.stop()
